@@ -125,6 +125,11 @@ Proof. intros Hc Ho. split; [exact Hc|intros m nk H; rewrite Ho; exact H]. Qed.
 Lemma ns_log_load st p : nsame st (log_load st p). Proof. apply nsame_owner_eq; reflexivity. Qed.
 Lemma ns_add_compiled st p : nsame st (add_compiled st p). Proof. apply nsame_owner_eq; reflexivity. Qed.
 Lemma ns_log_event st a b c : nsame st (log_event st a b c). Proof. apply nsame_owner_eq; reflexivity. Qed.
+Lemma ns_read_manifest fs st pk : nsame st (read_manifest fs st pk).
+Proof.
+  unfold read_manifest. destruct (mem_zs pk (compiled st)); [apply nsame_owner_eq; reflexivity|].
+  destruct (fs_get fs pk) as [[]|]; apply nsame_owner_eq; reflexivity.
+Qed.
 Lemma ns_bump st f : nsame st (bump_counter st f). Proof. apply nsame_owner_eq; reflexivity. Qed.
 Lemma ns_with_files st c : nsame st (with_files st c). Proof. apply nsame_owner_eq; reflexivity. Qed.
 Lemma ns_with_node st c : nsame st (with_node st c). Proof. apply nsame_owner_eq; reflexivity. Qed.
@@ -299,13 +304,35 @@ Proof.
   destruct c as [p|pk].
   - pose proof (load_module_ngood st p HI) as G. destruct (load_module fs rq st p) as [st1 r]. cbn [fst] in G.
     destruct r; try exact G. eapply ngood_trans; [exact G|apply IH; exact (proj1 G)].
-  - pose proof (ngood_ns _ _ (ns_log_load st pk) HI) as G. eapply ngood_trans; [exact G|apply IH; exact (proj1 G)].
+  - pose proof (ngood_ns _ _ (ns_read_manifest fs st pk) HI) as G. eapply ngood_trans; [exact G|apply IH; exact (proj1 G)].
+Qed.
+
+(* one more name for a core module that is already loaded: the entry holds what the registrations prescribe for that name *)
+Lemma reuse_core_ngood st name m0 : NInv nr st -> reuse_core nr st name = Some m0 ->
+  ngood nr st (with_native st (cache_set (native_cache st) name m0) (native_runs st)).
+Proof.
+  intros HI HR. unfold reuse_core in HR.
+  destruct (mem_zs name (n_registry nr)) eqn:E1; [discriminate|]. destruct (mem_zs name (n_global nr)) eqn:E2; [discriminate|].
+  destruct (mem_zs name (n_core nr)) eqn:E3; [discriminate|]. cbn [orb] in HR.
+  destruct (has_prefix node_prefix name) eqn:E4; [|discriminate].
+  destruct (mem_zs (skipn (length node_prefix) name) (n_core nr)) eqn:E5; [|discriminate].
+  destruct (mem_zs (skipn (length node_prefix) name) (n_registry nr)) eqn:E6; [discriminate|].
+  destruct (mem_zs (skipn (length node_prefix) name) (n_global nr)) eqn:E7; [discriminate|]. cbn [andb orb negb] in HR.
+  destruct (HI _ _ HR) as (nk & Hc & Ho).
+  assert (Hnk : nk = (skipn (length node_prefix) name, NCore)).
+  { unfold native_choice in Hc. rewrite E6, E7, E5 in Hc. inversion Hc. reflexivity. }
+  split; [|intros m nk' H; exact H].
+  intros n m Hm. cbn [native_cache with_native] in Hm. rewrite get_set in Hm. destruct (zs_eqb n name) eqn:En.
+  - apply zs_eqb_eq in En. subst n. inversion Hm; subst m. exists nk. split; [|exact Ho].
+    unfold native_choice. rewrite E1, E2, E3, E4, E5, Hnk. reflexivity.
+  - destruct (HI _ _ Hm) as (nk2 & H1 & H2). exists nk2. split; assumption.
 Qed.
 
 Lemma load_native_run_ngood st name : NInv nr st -> ngood nr st (fst (load_native_run nr rq st name)).
 Proof.
   intro HI. unfold load_native_run.
   destruct (cache_get (native_cache st) name); [apply ngood_refl; exact HI|].
+  destruct (reuse_core nr st name) as [m0|] eqn:ER; [cbn [fst]; apply reuse_core_ngood; assumption|].
   pose proof (load_native_ngood nr st name Hwf HI) as G. destruct (load_native nr st name) as [st1 r]. cbn [fst] in G.
   destruct r as [m| | | |]; try exact G.
   destruct (mem_zs (registered_name st1 m) (n_loader_throws nr)); [exact G|].
